@@ -72,17 +72,18 @@ Section Top.
     if p =? 0 then None else
       let ne := filter (@nonempty A) seqs in
       let nt := Nat.min p (total ne) in
-      let bounds := if sampling then sampling_bounds ltb d ne size nt os else exact_bounds partition ne size nt in
+      let bounds := if use_sampling true sampling size (total ne)
+                    then sampling_bounds ltb d ne size nt os else exact_bounds partition ne size nt in
       match run_threads seqmerge stable ne size bounds with
       | Some ts => Some {| p_threads := ts; p_cursors := scatter seqs (last bounds []); p_ret := size |}
       | None => None
       end.
-  Proof. intros E. unfold PMWM.pmwm_base. rewrite E. reflexivity. Qed.
+  Proof. intros E. unfold PMWM.pmwm_base, pmwm_base_gen. rewrite E. reflexivity. Qed.
 
   Lemma pmwm_base_empty stable sampling (seqs : list (list A)) size p os :
     filter (@nonempty A) seqs = [] ->
     pmwm_base stable sampling seqs size p os = Some {| p_threads := []; p_cursors := zeros seqs; p_ret := 0 |}.
-  Proof. intros E. unfold PMWM.pmwm_base. rewrite E. reflexivity. Qed.
+  Proof. intros E. unfold PMWM.pmwm_base, pmwm_base_gen. rewrite E. reflexivity. Qed.
 
   Lemma filter_nonempty_cases (seqs : list (list A)) :
     filter (@nonempty A) seqs = [] \/ exists d l' ne', filter (@nonempty A) seqs = (d :: l') :: ne'.
@@ -94,7 +95,8 @@ Section Top.
   (** ** The parallel path, stable variant, for any splitter whose boundaries form a chain of stable splits
       ending at sum [size]. *)
   Definition bounds_of (sampling : bool) (d : A) ne size nt os : list (list nat) :=
-    if sampling then sampling_bounds ltb d ne size nt os else exact_bounds partition ne size nt.
+    if use_sampling true sampling size (total ne)
+    then sampling_bounds ltb d ne size nt os else exact_bounds partition ne size nt.
 
   Definition bounds_ok (sampling : bool) (seqs : list (list A)) (size p os : nat) : Prop :=
     let ne := filter (@nonempty A) seqs in
@@ -157,6 +159,31 @@ Section Top.
     filter (@nonempty A) seqs = (d :: l') :: ne' -> 1 <= total (filter (@nonempty A) seqs).
   Proof. intros ->. unfold total. simpl. lia. Qed.
 
+  (** Both splitters deliver a chain of stable splits ending at sum [size]: MWMSA_EXACT always,
+      MWMSA_SAMPLING by the sampling splitter when size = total and by the exact splitter otherwise. *)
+  Lemma bounds_ok_all sampling (seqs : list (list A)) (size p os : nat) :
+    Forall (fun l => sorted l) seqs -> size <= total seqs -> 1 <= p -> (sampling = true -> 1 <= os) ->
+    partition_spec ltb partition (filter (@nonempty A) seqs) size ->
+    bounds_ok sampling seqs size p os.
+  Proof.
+    intros Hsorted Hsize Hp Hos Hpart. unfold bounds_ok. cbv zeta. intros d Hnn.
+    destruct (filter_nonempty_cases seqs) as [Ene|(d' & l' & ne' & Ene)]; [congruence|].
+    pose proof (total_pos_nonempty _ _ _ _ Ene) as Htp.
+    unfold bounds_of, use_sampling.
+    destruct (sampling && (size =? total (filter (@nonempty A) seqs))) eqn:Eu.
+    - apply andb_true_iff in Eu as [Es Et]. apply Nat.eqb_eq in Et.
+      apply (sampling_bounds_chain ltb Hswo).
+      + now apply sorted_filter.
+      + rewrite Forall_forall. intros l Hl. apply filter_In in Hl as [_ Hl]. now destruct l.
+      + rewrite Ene. discriminate.
+      + exact Et.
+      + lia.
+      + now apply Hos.
+    - apply exact_bounds_chain; auto.
+      + now rewrite total_filter.
+      + lia.
+  Qed.
+
   (** Exact splitting: every size <= total, every p >= 1. *)
   Theorem pmwm_base_exact_stable (seqs : list (list A)) (size p os : nat) :
     Forall (fun l => sorted l) seqs -> size <= total seqs -> 1 <= p ->
@@ -165,41 +192,35 @@ Section Top.
     parallel_result seqs size p (pmwm_base true false seqs size p os).
   Proof.
     intros Hsorted Hsize Hp Hseq Hpart. apply pmwm_base_stable_gen; auto.
-    unfold bounds_ok. cbv zeta. intros d Hnn.
-    destruct (filter_nonempty_cases seqs) as [Ene|(d' & l' & ne' & Ene)].
-    - congruence.
-    - pose proof (total_pos_nonempty _ _ _ _ Ene) as Htp.
-      unfold bounds_of. apply exact_bounds_chain; auto.
-      + now rewrite total_filter.
-      + lia.
+    apply bounds_ok_all; auto. discriminate.
   Qed.
 
-  (** Sampling splitting: size = total (size < total is the recorded finding), every p >= 1, every
-      oversampling factor >= 1. *)
+  (** MWMSA_SAMPLING: every size <= total (sampling splitter when size = total, exact splitter for a
+      proper prefix), every p >= 1, every oversampling factor >= 1. *)
   Theorem pmwm_base_sampling_stable (seqs : list (list A)) (size p os : nat) :
-    Forall (fun l => sorted l) seqs -> size = total seqs -> 1 <= p -> 1 <= os ->
+    Forall (fun l => sorted l) seqs -> size <= total seqs -> 1 <= p -> 1 <= os ->
     seqmerge_stable_spec ltb seqmerge ->
+    partition_spec ltb partition (filter (@nonempty A) seqs) size ->
     parallel_result seqs size p (pmwm_base true true seqs size p os).
   Proof.
-    intros Hsorted Hsize Hp Hos Hseq. apply pmwm_base_stable_gen; auto; [lia|].
-    unfold bounds_ok. cbv zeta. intros d Hnn.
-    destruct (filter_nonempty_cases seqs) as [Ene|(d' & l' & ne' & Ene)].
-    - congruence.
-    - pose proof (total_pos_nonempty _ _ _ _ Ene) as Htp.
-      unfold bounds_of. apply (sampling_bounds_chain ltb Hswo).
-      + now apply sorted_filter.
-      + rewrite Forall_forall. intros l Hl. apply filter_In in Hl as [_ Hl]. now destruct l.
-      + rewrite Ene. discriminate.
-      + now rewrite total_filter.
-      + lia.
-      + assumption.
+    intros Hsorted Hsize Hp Hos Hseq Hpart. apply pmwm_base_stable_gen; auto.
+    apply bounds_ok_all; auto.
+  Qed.
+
+  (** The dispatch itself: a proper prefix under MWMSA_SAMPLING runs exactly the MWMSA_EXACT code. *)
+  Lemma pmwm_base_sampling_prefix stable (seqs : list (list A)) (size p os : nat) :
+    size <> total seqs ->
+    pmwm_base stable true seqs size p os = pmwm_base stable false seqs size p os.
+  Proof.
+    intros H. unfold PMWM.pmwm_base, pmwm_base_gen, use_sampling. rewrite total_filter.
+    assert (size =? total seqs = false) as -> by now apply Nat.eqb_neq. reflexivity.
   Qed.
 
   (** ** Unstable variants (partial).  Full statement wanted:
         output ts is pointwise equivalent to firstn size (smerge seqs)  (same sequence of keys)
       Proved: everything except sortedness of the concatenated output, i.e. the output is a permutation of
       firstn size (smerge seqs) and of exactly the prefixes the cursors passed, the windows tile [0,size),
-      the cursors are the stable split of sum size.  Missing: Sorted (output ts) (each thread's output is
+      the cursors are the stable split of sum size.  Sortedness: pmwm_base_unstable_sorted below (each thread's output is
       sorted by C05 and the chunks are ordered by the stable splits; not yet assembled). *)
   Definition parallel_result_unstable (seqs : list (list A)) (size p : nat) (r : option (@pres A)) : Prop :=
     exists ts cur,
@@ -248,6 +269,33 @@ Section Top.
       + lia.
       + rewrite <- (smerge_perm ltb), S4. exact Out.
       + rewrite Len, LR. unfold nt. now rewrite Htot.
+  Qed.
+
+  (** ... and the concatenated output of the unstable variant is sorted (given that each sequential
+      unstable merge delivers a sorted permutation of its chunk).  Together with the permutation statement
+      this pins the sequence of keys: the sorted arrangement of the first [size] elements of the stable merge.
+      (The last step to "pointwise equivalent to firstn size (smerge seqs)" -- two sorted permutations of one
+      multiset are pointwise equivalent -- is not formalised.) *)
+  Theorem pmwm_base_unstable_sorted sampling (seqs : list (list A)) (size p os : nat) :
+    Forall (fun l => sorted l) seqs -> size <= total seqs -> 1 <= p ->
+    seqmerge_unstable_sorted_spec ltb seqmerge ->
+    bounds_ok sampling seqs size p os ->
+    forall r, pmwm_base false sampling seqs size p os = Some r -> sorted (output (p_threads r)).
+  Proof.
+    intros Hsorted Hsize Hp Hseq Hb r.
+    pose proof (sorted_filter seqs Hsorted) as Hsne.
+    destruct (filter_nonempty_cases seqs) as [Ene|(d & l' & ne' & Ene)].
+    - rewrite (pmwm_base_empty _ _ _ _ _ _ Ene). intros E. injection E as <-. constructor.
+    - rewrite (pmwm_base_nonempty _ _ _ _ _ _ _ _ _ Ene). cbv zeta.
+      unfold bounds_ok in Hb. cbv zeta in Hb.
+      set (ne := filter (@nonempty A) seqs) in *.
+      assert (Hp0 : p =? 0 = false) by (apply Nat.eqb_neq; lia). rewrite Hp0.
+      destruct (Hb d ltac:(rewrite Ene; discriminate)) as (rest & EB & C & GL & SL & LR). unfold bounds_of in EB.
+      rewrite EB.
+      destruct (run_threads seqmerge false ne size (zeros ne :: rest)) as [ts|] eqn:R; [|discriminate].
+      intros E. injection E as <-. cbn [p_threads].
+      apply (run_threads_unstable_sorted ltb seqmerge ne size Hsne Hseq rest (zeros ne) ts
+               (good_zeros ltb ne) C ltac:(lia) R).
   Qed.
 
   (** ** The front ends *)
